@@ -103,6 +103,7 @@ def merge_shards(rs, quals):
         m["obligations"] += r["obligations"]
         m["inlined"] = sorted(set(m["inlined"]) | set(r["inlined"]))
         m["assumed"] = sorted(set(m.get("assumed", [])) | set(r.get("assumed", [])))
+        m["notes"] = sorted(set(m.get("notes", [])) | set(r.get("notes", [])))
         m["cross"] += r.get("cross", [])
     return [out[q] for q in quals if q in out]
 
@@ -334,6 +335,8 @@ def run_property(pid, tier):
     level = getattr(prop, "LEVEL", "other")
     assumptions = [k + ": " + v for k, v in STANDING_ASSUMPTIONS.items() if k in getattr(prop, "ASSUMES", STANDING_ASSUMPTIONS.keys())]
     assumptions += list(getattr(prop, "EXTRA_ASSUMPTIONS", []))
+    for nt in sorted(set(x for r in results for x in r.get("notes", []))):
+        assumptions.append(nt)
     used = sorted(set(a for r in results for a in r.get("assumed", [])))
     if used:
         assumptions.append("ASSUMED callee contracts applied at call sites in this run (bodies not verified): " + ", ".join(used))
